@@ -963,7 +963,8 @@ def fixed_outcome_scenarios(base, uniq=False, max_full=5):
     return out
 
 
-BIG_PATTERNS = ("items-n4-k2-window", "split-nested", "fanin-in-split", "-m3-", "-m4-", "fj3-tail", "fj-two-level", "items-n4", "items-n3-knone",
+BIG_PATTERNS = ("items-n4-k2-window", "fanout-join-and-task", "retry-on-join1", "loop-forkjoin", "dict-two-terminals",
+                "fork-nojoin-publish", "split-nested", "fanin-in-split", "-m3-", "-m4-", "fj3-tail", "fj-two-level", "items-n4", "items-n3-knone",
                 "items-n3-k4", "-l2", "-tail", "two-joins", "cleanup-par", "fanin-remediated", "-j1-", "split-2",
                 "decide-merge", "fanin-parallel-edges")
 
@@ -1276,7 +1277,7 @@ def f3_dev(s, tier):
     return 3 if n <= 6 else 2
 
 
-HUGE_PATTERNS = ("split-nested", "fanin-in-split", "splits-nested", "fj-two-level")
+HUGE_PATTERNS = ("split-nested", "fanin-in-split", "splits-nested", "fj-two-level", "loop-fork-out")
 
 
 def is_huge(s):
